@@ -591,7 +591,7 @@ func c06GenOp(i int, syms *SymbolTable, boundVar Variable, boundVal Term) (Op, c
 		case 1:
 			t = Bool(vBool("seq.bool"))
 		case 2:
-			t = String(1024)
+			t = String(0) // the default symbol "read": concrete, so that a regex operator can run natively
 		case 3:
 			t = Set{Integer(vInt64("seq.setelt"))}
 		case 4:
